@@ -196,7 +196,7 @@ package memoization
 //@   opt go-sequential
 //@   opt strings opaque
 //@   requires g != nil && g.g != nil && g.memT != nil && g.#lock_mu == 0 && true && lo != nil && ctx != nil && trpls != nil && trpls.#closed == 0
-//@   modifies contents(g.memT), g.#lock_mu, $driverFailed, trpls.#out, trpls.#closed
+//@   modifies contents(g.memT), g.#lock_mu, $driverFailed, trpls.#out, trpls.#closed, $delivered
 //@   ensures[lock-released] g.#lock_mu == 0
 //@   ensures[closed-once] trpls.#closed == 1
 //@   ensures[driver-error-surfaces@C20] $driverFailed && !old($driverFailed) ==> result != nil
